@@ -64,7 +64,7 @@ def codec_cases(rng, tier):
                 for k in ("tok", "text", "sym", "def"):
                     cases.append(("unwire", k, b, c, l))
     # random large ones incl. usize extremes (base + count <= usize::MAX, as reserve_*_ids guarantees)
-    n = 1500 if tier == "quick" else 20000
+    n = 400 if tier == "quick" else 20000
     ext = [0, 1, 2, (1 << 31) - 1, 1 << 31, (1 << 32) - 1, 1 << 32, (1 << 32) + 1, (1 << 63) - 1, 1 << 63,
            USIZE_MAX - 2, USIZE_MAX - 1, USIZE_MAX]
     for _ in range(n):
